@@ -5,7 +5,6 @@ import (
 	"go/token"
 	"go/types"
 	"sort"
-	"strings"
 
 	"golang.org/x/tools/go/ssa"
 )
@@ -119,51 +118,12 @@ func (w *World) validatedPositive(pkg, field string) (bool, string) {
 		return false, "no Params.Validate in " + pkg
 	}
 	w.FuncsAnalysed[fn] = true
-	for _, b := range fn.Blocks {
-		for _, in := range b.Instrs {
-			c, ok := in.(*ssa.Call)
-			if !ok || len(c.Call.Args) == 0 {
-				continue
+	if flags, pos, err := w.paramPositivity(pkg); err == nil {
+		if b, ok := flags[field]; ok {
+			if b {
+				return true, pos[field]
 			}
-			// idiom B: validateXxx(name, true, p.Field)
-			if strings.HasPrefix(lastName(CalleeName(&c.Call)), "validate") {
-				positive, mentions := false, false
-				for _, a := range c.Call.Args {
-					if k, isC := a.(*ssa.Const); isC && constString(k) == "true" {
-						positive = true
-					}
-					if Render(a).Has("field:Params." + field) {
-						mentions = true
-					}
-				}
-				if mentions {
-					if positive {
-						return true, w.Pos(c.Pos())
-					}
-					return false, "validated without the positive flag at " + w.Pos(c.Pos())
-				}
-			}
-			// idiom A: validateXxx(name, true)(p.Field)
-			inner, ok := c.Call.Value.(*ssa.Call)
-			if !ok {
-				continue
-			}
-			if !strings.HasPrefix(lastName(CalleeName(&inner.Call)), "validate") {
-				continue
-			}
-			positive := false
-			for _, a := range inner.Call.Args {
-				if k, isC := a.(*ssa.Const); isC && constString(k) == "true" {
-					positive = true
-				}
-			}
-			if !Render(c.Call.Args[0]).Has("field:Params." + field) {
-				continue
-			}
-			if positive {
-				return true, w.Pos(c.Pos())
-			}
-			return false, "validated without the positive flag at " + w.Pos(c.Pos())
+			return false, "validated without the positive flag at " + pos[field]
 		}
 	}
 	// explicit comparison: not (p.F <= 0) / p.F == 0 -> error
@@ -184,10 +144,39 @@ func (w *World) validatedAtMost100(pkg, field string) (bool, string) {
 		return false, "no Params.Validate in " + pkg
 	}
 	c := Cond{Op: "LSS", A: []string{"const:100"}, B: []string{"field:Params." + field}, Want: false}
-	ifs := w.ifs(fn)
-	for _, s := range w.Sites(fn, RetOK()) {
-		if ok, _, det := w.gatedBy(fn, ifs, s, c); ok {
-			return true, det
+	// the edge on which field > 100 leads only to returns of a non-nil error
+	for _, ii := range w.ifs(fn) {
+		matched, passOnTrue := c.Match(ii.pred)
+		if !matched {
+			continue
+		}
+		fail := ii.b.Succs[0]
+		if passOnTrue {
+			fail = ii.b.Succs[1]
+		}
+		seen := map[*ssa.BasicBlock]bool{}
+		ok := true
+		nret := 0
+		var walk func(b *ssa.BasicBlock)
+		walk = func(b *ssa.BasicBlock) {
+			if seen[b] {
+				return
+			}
+			seen[b] = true
+			if len(b.Succs) == 0 {
+				nret++
+				if !returnsNonNilError(b) && !blockPanics(b) {
+					ok = false
+				}
+				return
+			}
+			for _, s := range b.Succs {
+				walk(s)
+			}
+		}
+		walk(fail)
+		if ok && nret > 0 {
+			return true, w.Pos(ifOf(ii.b).Cond.Pos())
 		}
 	}
 	return false, "Params.Validate of " + pkg + " accepts " + field + " > 100"
